@@ -9,6 +9,7 @@ import (
 	"fmt"
 	"math"
 	"sort"
+	"strings"
 
 	"seehuhn.de/go/geom/matrix"
 	"seehuhn.de/go/geom/rect"
@@ -164,7 +165,12 @@ func runC19(r *rt.Runner) {
 			o := &fontOpts{maxGlyphs: 14, fractional: true, noNotdef: true, features: map[string]bool{}}
 			f := genFont(rng, o)
 			// C19 wants axis-aligned matrices, including negative and non-uniform scales
-			switch rng.IntN(4) {
+			switch rng.IntN(6) {
+			case 4, 5:
+				// next to the customary matrix, but not equal to it
+				f.FontMatrix = [][6]float64{{0.0010005, 0, 0, 0.0009995, 0, 0}, {1 / 999.5, 0, 0, 1 / 999.5, 0, 0}, {0.001, 0, 0, 0.001, 5e-7, -5e-7},
+					{0.0010000001, 0, 0, 0.001, 0, 0}, {0.001, 0, 0, 0.0010009, 0, 0}, {0.00099999, 0, 0, 0.00100001, 1e-7, 0}, {0.001, 0, 0, -0.001, 0, 0}}[rng.IntN(7)]
+				o.f("font matrix next to the customary one")
 			case 0:
 				f.FontMatrix = matrix.Matrix{-0.001, 0, 0, 0.002, 0, 0}
 			case 1:
@@ -247,7 +253,17 @@ func runC19(r *rt.Runner) {
 				c.Violation("type1|widthsmap-size", fmt.Sprintf("WidthsMapPDF() has %d entries for %d glyphs", len(wm), len(f.Glyphs)), "")
 			}
 			query := append([]string(nil), names...)
-			query = append(query, "nosuchglyph", "", ".notdef", "A.missing")
+			query = append(query, "nosuchglyph", "", ".notdef", "A.missing", ".", "..", "a.b.c")
+			// absent names made from present ones: with a suffix, without one, upper-cased, doubled
+			for i, nme := range names {
+				if i%3 == 0 && nme != "" {
+					for _, q := range []string{nme + ".sc", nme + ".alt1", nme + ".", nme + "_" + nme, nme + nme, strings.ToUpper(nme) + "x", nme[:len(nme)-1]} {
+						if _, ok := f.Glyphs[q]; !ok {
+							query = append(query, q)
+						}
+					}
+				}
+			}
 			for _, nme := range query {
 				g := f.Glyphs[nme]
 				var wantBox, wantPDF rect.Rect
@@ -313,7 +329,17 @@ func runC19(r *rt.Runner) {
 			if got, want := m.FontBBoxPDF(), unionBoxes(boxes); !rectClose(got, want) {
 				c.Violation("afm|font-bbox-pdf", fmt.Sprintf("FontBBoxPDF() = %v, union of the non-empty glyph boxes = %v", got, want), "")
 			}
-			for _, nme := range append(append([]string(nil), names...), "nosuchglyph", "") {
+			aq := append(append([]string(nil), names...), "nosuchglyph", "", ".", "a.b")
+			for i, nme := range names {
+				if i%3 == 0 && nme != "" {
+					for _, q := range []string{nme + ".sc", nme + ".", nme + nme, nme[:len(nme)-1]} {
+						if _, ok := m.Glyphs[q]; !ok {
+							aq = append(aq, q)
+						}
+					}
+				}
+			}
+			for _, nme := range aq {
 				g := m.Glyphs[nme]
 				if g == nil {
 					g = m.Glyphs[".notdef"]
